@@ -452,7 +452,7 @@ def run_property(prop, tier, seed, replay=None):
         progs, cases, hist = gen(rng, tier)
     work = os.path.join(CACHE, "work", "%s-%s" % (prop, tier))
     records, build_fail = run_programs("V", "drv_conv.hpp", progs, cases, configs, work, exe, nshards=16, name="conv")
-    for (sh_, cfg, blog) in build_fail:
+    for (sh_, cfg, blog) in {c: (s_, c, l) for (s_, c, l) in reversed(build_fail)}.values():
         rep.violation("conversion driver shard %d no longer builds in configuration %s" % (sh_, cfg),
                       {"obligation": "corr:conv/build/%d/%s" % (sh_, cfg), "log": blog[-3000:], "signature": "build:conv:%s" % cfg}, True)
     evaluations, flagged, nontriv = 0, [], set()
